@@ -547,9 +547,15 @@ namespace mustache {
 
         SharedComponentPtr getCreatedSharedComponent(const SharedComponentPtr& ptr, SharedComponentId id);
 
+        // constructs a temporary parked in the command buffer; afterAssign fires when it is applied at unlock
         template<typename Component, typename TupleType, size_t... _I>
-        void initComponent(void* ptr, World& world, const Entity& e, TupleType& tuple, std::index_sequence<_I...>&&) {
-            ComponentFactory::instance().initComponent<Component>(ptr, world, e,std::get<_I>(tuple)...);
+        void initComponent(void* ptr, [[maybe_unused]] World& world, [[maybe_unused]] const Entity& e,
+                           [[maybe_unused]] TupleType& tuple, std::index_sequence<_I...>&&) {
+            if constexpr (sizeof...(_I) > 0) {
+                new(ptr) Component{ std::get<_I>(tuple)... };
+            } else {
+                ComponentInfo::componentConstructor<Component>(ptr, e, world);
+            }
         }
 
         template<typename Component, typename TupleType, size_t... _I>
@@ -881,10 +887,14 @@ namespace mustache {
     T& EntityManager::assignUnique(Entity e, _ARGS&&... args) {
         static const auto component_id = ComponentFactory::instance().registerComponent<T>();
         constexpr bool use_custom_constructor = sizeof...(_ARGS) > 0;
+        const bool deferred = isLocked();
         auto component_ptr = assign<use_custom_constructor>(e, component_id);
         if constexpr(use_custom_constructor) {
             component_ptr = static_cast<void*>(new(component_ptr) T{std::forward<_ARGS>(args)...});
-            ComponentInfo::afterComponentAssign<T>(component_ptr, e, world_);
+            if (!deferred) {
+                // a deferred assignment fires afterAssign when it is applied at unlock, on the real instance
+                ComponentInfo::afterComponentAssign<T>(component_ptr, e, world_);
+            }
         }
         return *reinterpret_cast<T*>(component_ptr);
     }
